@@ -141,3 +141,24 @@ Proof.
   destruct (simplify_batch_r sparse_ops fuel c s es) as [[cs s'] rs].
   unfold batch_rel in H. cbn in H. destruct H as (Ec & R' & Er). auto.
 Qed.
+
+(** both instances compute what the same driver computes on the specification-level map [ExprRef -> Option<ExprRef>]
+    itself ([fun_ops]: reads are applications, a store is the point update): the container is gone from the picture *)
+Theorem containers_refine_map : forall (fuel : nat) (es : list expr),
+  match simplify_batch_r fun_ops fuel [] (fm_empty None) es with
+  | (c, m, rs) =>
+      (match simplify_batch_dense fuel es with (cd, d, rd) => rd = rs /\ cd = c /\ fm_eq (dense_abs None d) m end) /\
+      (match simplify_batch_sparse fuel es with (cs, s, rs') => rs' = rs /\ cs = c /\ fm_eq (sparse_abs None s) m end)
+  end.
+Proof.
+  intros fuel es. unfold simplify_batch_dense, simplify_batch_sparse.
+  assert (ops_rel dense_ops fun_ops dense_empty (fm_empty None)) as Rd by (intro k; reflexivity).
+  assert (ops_rel sparse_ops fun_ops sparse_empty (fm_empty None)) as Rs by (intro k; reflexivity).
+  pose proof (simplify_batch_r_sim _ _ dense_ops fun_ops dense_ops_lawful fun_ops_lawful fuel es [] _ _ Rd) as Hd.
+  pose proof (simplify_batch_r_sim _ _ sparse_ops fun_ops sparse_ops_lawful fun_ops_lawful fuel es [] _ _ Rs) as Hs.
+  destruct (simplify_batch_r fun_ops fuel [] (fm_empty None) es) as [[c m] rs].
+  destruct (simplify_batch_r dense_ops fuel [] dense_empty es) as [[cd d] rd].
+  destruct (simplify_batch_r sparse_ops fuel [] sparse_empty es) as [[cs s] rs'].
+  unfold batch_rel in Hd, Hs. cbn in Hd, Hs. destruct Hd as (E1 & R1 & E2). destruct Hs as (E3 & R2 & E4).
+  split; (split; [assumption|split; [assumption|]]); intro k; [apply R1|apply R2].
+Qed.
